@@ -237,7 +237,7 @@ fn hot_reloading_thread(
     select.recv(&cache_msg);
     select.recv(&events);
 
-    loop {
+    'thread: loop {
         // We don't use `select` method here as we always want to check
         // `cache_msg` channel first.
         let ready = select.ready();
@@ -259,7 +259,9 @@ fn hot_reloading_thread(
                 }
                 Ok(CacheMessage::Clear) => cache.clear_local_cache(),
                 Ok(CacheMessage::AddAsset(infos)) => cache.add_asset(infos),
-                Err(_) => break,
+                Err(channel::TryRecvError::Empty) => break,
+                // The cache was dropped: nobody can ask for a reload anymore
+                Err(channel::TryRecvError::Disconnected) => break 'thread,
             }
         }
 
@@ -268,7 +270,7 @@ fn hot_reloading_thread(
                 Ok(msg) => cache.handle_events(msg),
                 Err(crossbeam_channel::TryRecvError::Empty) => (),
                 // We won't receive events anymore, we can stop now
-                Err(crossbeam_channel::TryRecvError::Disconnected) => break,
+                Err(crossbeam_channel::TryRecvError::Disconnected) => break 'thread,
             }
         }
     }
